@@ -29,14 +29,43 @@ pub mod custom {
             env.storage().instance().set(&symbol_short!("symbol"), &symbol);
             env.storage().instance().set(&symbol_short!("decimals"), &decimals);
         }
+        /// a token whose answers CHANGE: after `set_alt`, each metadata getter gives its constructor value the first time it is
+        /// asked after `arm` and the alternative value every further time (a caller that reads once never notices)
+        pub fn set_alt(env: Env, name: SString, symbol: SString, decimals: u32) {
+            env.storage().instance().set(&symbol_short!("altname"), &name);
+            env.storage().instance().set(&symbol_short!("altsym"), &symbol);
+            env.storage().instance().set(&symbol_short!("altdec"), &decimals);
+        }
+        pub fn arm(env: Env) {
+            for k in [symbol_short!("rname"), symbol_short!("rsym"), symbol_short!("rdec")] {
+                env.storage().instance().set(&k, &0u32);
+            }
+        }
+        fn nth_read(env: &Env, k: soroban_sdk::Symbol) -> u32 {
+            let n: u32 = env.storage().instance().get(&k).unwrap_or(0);
+            env.storage().instance().set(&k, &(n + 1));
+            n
+        }
         pub fn name(env: Env) -> SString {
-            env.storage().instance().get(&symbol_short!("name")).unwrap()
+            let n = Self::nth_read(&env, symbol_short!("rname"));
+            match env.storage().instance().get::<_, SString>(&symbol_short!("altname")) {
+                Some(alt) if n >= 1 => alt,
+                _ => env.storage().instance().get(&symbol_short!("name")).unwrap(),
+            }
         }
         pub fn symbol(env: Env) -> SString {
-            env.storage().instance().get(&symbol_short!("symbol")).unwrap()
+            let n = Self::nth_read(&env, symbol_short!("rsym"));
+            match env.storage().instance().get::<_, SString>(&symbol_short!("altsym")) {
+                Some(alt) if n >= 1 => alt,
+                _ => env.storage().instance().get(&symbol_short!("symbol")).unwrap(),
+            }
         }
         pub fn decimals(env: Env) -> u32 {
-            env.storage().instance().get(&symbol_short!("decimals")).unwrap()
+            let n = Self::nth_read(&env, symbol_short!("rdec"));
+            match env.storage().instance().get::<_, u32>(&symbol_short!("altdec")) {
+                Some(alt) if n >= 1 => alt,
+                _ => env.storage().instance().get(&symbol_short!("decimals")).unwrap(),
+            }
         }
         pub fn balance(env: Env, id: Address) -> i128 {
             env.storage().persistent().get(&id).unwrap_or(0)
@@ -63,6 +92,11 @@ pub mod custom {
 
 }
 pub use custom::{CustomToken, CustomTokenClient};
+
+/// tell a harness token (if it is one) that a new reader begins: the next read of each metadata getter is a "first" read
+pub fn arm_token(env: &Env, token: &Address) {
+    let _ = guarded(|| env.try_invoke_contract::<soroban_sdk::Val, soroban_sdk::Error>(token, &soroban_sdk::Symbol::new(env, "arm"), soroban_sdk::Vec::new(env)));
+}
 
 pub mod recv {
     use soroban_sdk::{contract, contractimpl, symbol_short, Address, Bytes, BytesN, Env, String as SString};
@@ -232,6 +266,13 @@ impl ItsWorld {
                 let _ = self.events();
                 ("ok".into(), String::new())
             }
+            "ctok.shifty" => {
+                // ctok.shifty <addr> <altname> <altsymbol> <altdecimals>: from now on the token changes its answers on re-reading
+                let a = Addr::parse(t[1]).sdk(&env);
+                CustomTokenClient::new(&env, &a).set_alt(&sstr(&env, &unhx(t[2])), &sstr(&env, &unhx(t[3])), &pu32(t[4]));
+                let _ = self.events();
+                ("ok".into(), String::new())
+            }
             "ctok.mint" => {
                 let a = Addr::parse(t[1]).sdk(&env);
                 CustomTokenClient::new(&env, &a).mint(&Addr::parse(t[2]).sdk(&env), &pi128(t[3]));
@@ -260,6 +301,7 @@ impl ItsWorld {
             }
             "tok.meta" => {
                 let tk = Addr::parse(t[1]).sdk(&env);
+                arm_token(&env, &tk);
                 let c = TokenClient::new(&env, &tk);
                 match guarded(|| (c.name(), c.symbol(), c.decimals())) {
                     Ok((n, s, d)) => (format!("ok s{} s{} u{}", hx(&sstr_bytes(&n)), hx(&sstr_bytes(&s)), d), String::new()),
@@ -329,6 +371,12 @@ impl ItsWorld {
                 install_auth_tree(&env, t[2], &tree, (its.clone(),).into_val(&env));
                 let r = guarded(|| self.client().try_transfer_ownership(&n));
                 self.fin(r, |_| String::new())
+            }
+            "its.upgrade_migrate" => {
+                let its = self.its.clone().unwrap();
+                let r = upgrade_migrate(&env, &its, t[1]);
+                let _ = self.events();
+                r
             }
             "its.owner" => {
                 let r = guarded(|| self.client().try_owner());
@@ -407,11 +455,22 @@ impl ItsWorld {
                         _ => tk.clone(),
                     };
                     let tc = TokenClient::new(&env, &registered);
+                    arm_token(&env, &registered);
                     if let Ok((n, s, d)) = guarded(|| (tc.name(), tc.symbol(), tc.decimals())) {
                         let msg = Message::DeployInterchainToken(DeployInterchainToken { token_id: tid, name: n, symbol: s, decimals: d as u8, minter: None });
                         if let Some(p) = self.hub_payload(&dest, msg) {
                             tree = Some(self.pay_gas_tree(&p, &spender, &gas));
                         }
+                    }
+                }
+                // (before the authorisations are installed: they are for the one invocation that follows)
+                arm_token(&env, &tk);
+                if let Ok(Ok(Ok(tid))) = guarded(|| {
+                    let ds = self.client().canonical_token_deploy_salt(&tk);
+                    self.client().try_interchain_token_id(&Address::from_string(&SString::from_str(&env, "GAAAAAAAAAAAAAAAAAAAAAAAAAAAAAAAAAAAAAAAAAAAAAAAAAAAAWHF")), &ds)
+                }) {
+                    if let Ok(Ok(Ok(a))) = guarded(|| self.client().try_token_address(&tid)) {
+                        arm_token(&env, &a);
                     }
                 }
                 match (&tree, t[6]) {
